@@ -172,7 +172,13 @@ func (c *Ctx) hasMethod(t types.Type, name string) bool {
 
 // traceSources follows a value back through phis, cells, slices and conversions
 // and returns the terminal values.
-func traceSources(v ssa.Value) []ssa.Value {
+func traceSources(v ssa.Value) []ssa.Value { return traceSourcesOpt(v, false) }
+
+// traceSourcesDeep additionally sees through transparent helpers: the result of a call to one is
+// traced into the values it returns, and a parameter of one into the arguments at its call sites.
+func traceSourcesDeep(v ssa.Value) []ssa.Value { return traceSourcesOpt(v, true) }
+
+func traceSourcesOpt(v ssa.Value, deep bool) []ssa.Value {
 	var out []ssa.Value
 	seen := map[ssa.Value]bool{}
 	var walk func(v ssa.Value)
@@ -205,6 +211,46 @@ func traceSources(v ssa.Value) []ssa.Value {
 			}
 			out = append(out, v)
 		case *ssa.Extract:
+			if call, ok := x.Tuple.(*ssa.Call); ok && deep && curCtx != nil {
+				if h := call.Call.StaticCallee(); h != nil && curCtx.transparent(h) {
+					n := 0
+					core.EachInstr(h, func(i ssa.Instruction) {
+						if ret, ok := i.(*ssa.Return); ok && x.Index < len(ret.Results) {
+							n++
+							walk(ret.Results[x.Index])
+						}
+					})
+					if n > 0 {
+						return
+					}
+				}
+			}
+			out = append(out, v)
+		case *ssa.Call:
+			if deep && curCtx != nil {
+				if h := x.Call.StaticCallee(); h != nil && curCtx.transparent(h) && h.Signature.Results().Len() == 1 {
+					n := 0
+					core.EachInstr(h, func(i ssa.Instruction) {
+						if ret, ok := i.(*ssa.Return); ok && len(ret.Results) == 1 {
+							n++
+							walk(ret.Results[0])
+						}
+					})
+					if n > 0 {
+						return
+					}
+				}
+			}
+			out = append(out, v)
+		case *ssa.Parameter:
+			if deep && curCtx != nil && x.Parent() != nil && x.Parent().Parent() == nil && curCtx.transparent(x.Parent()) {
+				if args := curCtx.P.ArgsFor(x); len(args) > 0 {
+					for _, a := range args {
+						walk(a)
+					}
+					return
+				}
+			}
 			out = append(out, v)
 		default:
 			out = append(out, v)
